@@ -445,10 +445,10 @@ def _td_reconfig(c):
             goals = [('cron_is_reloaded_after_the_last_change', And(g['phase'] == 1, Rec.recv(r) == Val.Obj(cron)))]; g['phase'] = 2
             return goals
         if fn == 'dtnow':
-            goals = [('the_clock_is_read_after_the_reload', g['phase'] == 2)]; g['phase'] = 3
+            goals = [('the_clock_is_read_once', BoolVal(not g['clock']))]; g['clock'] = True        # (when it is read does not matter)
             return goals
         if fn == 'recalc':
-            goals = [('output_recomputed_for_the_current_time', And(g['phase'] == 3, Rec.recv(r) == Val.Obj(me), Rec.a0(r) == g['now_value']))]
+            goals = [('output_recomputed_for_the_current_time_after_the_reload', And(g['phase'] == 2, BoolVal(g['clock']), Rec.recv(r) == Val.Obj(me), Rec.a0(r) == g['now_value']))]
             g['phase'] = 4; g['output_before_recalc'] = st.readz('_output', me)
             return goals
         return [('no_other_call', BoolVal(False))]
@@ -478,7 +478,7 @@ def inv_td_add(lc):
 
 def verify_reconfig(run):
     H = {'attr': ATTRS, 'contains': td_contains}
-    G = {'phase': 0, 'now_value': Const('now0', Val), 'output_before_recalc': Const('out0', Val)}
+    G = {'phase': 0, 'clock': False, 'now_value': Const('now0', Val), 'output_before_recalc': Const('out0', Val)}
     run.verify('TimeDate._event_reconfig', cls='TimeDate', hooks=H, ghost=G,
                invariants={'for time_of_day in self._times.range_endpoints()': inv_td_remove,
                            'for time_of_day in self._times.range_endpoints()#1': inv_td_add},
